@@ -315,3 +315,146 @@ fn c16_search_best_n2_m4() {
 fn c16_search_best_n3_m6() {
     search_best_body::<3, 6>()
 }
+
+// ---------------------------------------------------------------------------------------------
+// Tree counters under interference (C03 / C04, upper level): per-operation delta balance.
+// Ghost PENDING = frames the call under test is carrying between the lower layer / a slot and
+// the tree counter. The environment may rewrite the tree word arbitrarily before each of my
+// accesses, subject only to: the counter never includes frames I carry
+// (free <= TREE_FRAMES - PENDING), and a tree whose reservation token I hold stays reserved
+// with a class my slot class can be returned to. Obligations: no panic, and every successful
+// RMW of mine moves the counter by exactly the frames I hand over / take (PENDING balance 0 at
+// return) - so `sum of counters + sum of pending == lower free` is preserved by every atomic
+// step of every thread, and fast == exact whenever no call is in flight, for any thread count.
+// ---------------------------------------------------------------------------------------------
+static mut TI_ATOM: *const Atom<Tree> = core::ptr::null();
+static mut TI_PENDING: usize = 0;
+static mut TI_TOKEN: Option<Class> = None; // I hold the reservation of this tree (slot class)
+static mut TI_POLICY: Option<PolicyFn> = None;
+static mut TI_DELTA_FREE: isize = 0;
+static mut TI_ENV_STEPS: usize = 0;
+static mut TI_BAD: bool = false;
+
+fn ti_env(_addr: *const u8, _size: usize) {
+    unsafe {
+        if !kani::any::<bool>() {
+            return;
+        }
+        let t = any_tree();
+        kani::assume(t.free() + TI_PENDING <= TREE_FRAMES);
+        if let Some(c) = TI_TOKEN {
+            kani::assume(t.reserved());
+            let pf = TI_POLICY;
+            let p = (pf.unwrap())(c, t.class(), TI_PENDING);
+            kani::assume(matches!(p, Policy::Match(_) | Policy::Demote));
+        }
+        (*TI_ATOM).0.store(t.into_bits(), core::sync::atomic::Ordering::Relaxed);
+        TI_ENV_STEPS += 1;
+    }
+}
+fn ti_on_write(_addr: *const u8, _size: usize, old: u64, new: u64) {
+    unsafe {
+        let (o, n) = (Tree::from_bits(old as u32), Tree::from_bits(new as u32));
+        TI_DELTA_FREE += n.free() as isize - o.free() as isize;
+        let tok = TI_TOKEN;
+        if o.reserved() && !n.reserved() && tok.is_none() {
+            TI_BAD = true; // unreserved a tree without holding its token
+        }
+    }
+}
+fn ti_setup(a: &Atom<Tree>, pending: usize, token: Option<Class>, policy: PolicyFn) {
+    unsafe {
+        TI_ATOM = a;
+        TI_PENDING = pending;
+        TI_TOKEN = token;
+        TI_POLICY = Some(policy);
+        TI_DELTA_FREE = 0;
+        TI_ENV_STEPS = 0;
+        TI_BAD = false;
+        ENV = Some(ti_env);
+        ON_WRITE = Some(ti_on_write);
+        FREEZE_AT = usize::MAX;
+    }
+    install(Mode::Interference);
+}
+
+// @h props=C03,C04 tier=quick geom=4 panics=C03 mem=C18 unwind=C21
+#[kani::proof]
+#[kani::unwind(5)]
+fn ti_put_under_interference() {
+    let entries = [Atom::new(any_tree())];
+    let policy = any_builtin_policy();
+    let trees = Trees { entries: &entries, default: any_class() };
+    let frames: usize = kani::any();
+    kani::assume(frames >= 1 && frames <= TREE_FRAMES);
+    kani::assume(Tree::from_bits(entries[0].0.load(core::sync::atomic::Ordering::Relaxed)).free() + frames <= TREE_FRAMES);
+    ti_setup(&entries[0], frames, None, policy);
+    trees.put(TreeId(0), frames, policy);
+    set_mode(Mode::Off);
+    vcover!("C04", unsafe { TI_ENV_STEPS } > 0, "other threads changed the counter meanwhile");
+    vassert!("C04", unsafe { TI_DELTA_FREE } == frames as isize, "returning frames to a tree raises its counter by exactly those frames, whatever other threads do");
+    vassert!("C03", !unsafe { TI_BAD }, "a counter update never unreserves a tree");
+}
+
+#[kani::proof]
+#[kani::unwind(5)]
+fn ti_unreserve_under_interference() {
+    let policy = any_builtin_policy();
+    let class = any_class();
+    let t = any_tree();
+    let free: usize = kani::any();
+    kani::assume(free <= TREE_FRAMES && t.free() + free <= TREE_FRAMES && t.reserved());
+    kani::assume(matches!(policy(class, t.class(), free), Policy::Match(_) | Policy::Demote));
+    let entries = [Atom::new(t)];
+    let trees = Trees { entries: &entries, default: any_class() };
+    ti_setup(&entries[0], free, Some(class), policy);
+    trees.unreserve(TreeId(0), free, class, policy);
+    set_mode(Mode::Off);
+    let n = Tree::from_bits(entries[0].0.load(core::sync::atomic::Ordering::Relaxed));
+    vcover!("C04", unsafe { TI_ENV_STEPS } > 0, "other threads changed the counter meanwhile");
+    vassert!("C04", unsafe { TI_DELTA_FREE } == free as isize, "returning a reservation adds exactly the slot's frames to the tree counter");
+    vassert!("C03", !n.reserved() || unsafe { TI_ENV_STEPS } > 0, "the tree is unreserved by the holder of its reservation");
+}
+
+#[kani::proof]
+#[kani::unwind(5)]
+fn ti_take_under_interference() {
+    // steal / reserve_or_steal / sync: arbitrary interference, no rely needed
+    let entries = [Atom::new(any_tree())];
+    let policy = any_policy();
+    let trees = Trees { entries: &entries, default: any_class() };
+    let class = any_class();
+    let order: usize = kani::any();
+    kani::assume(order <= TREE_ORDER);
+    let frames = 1usize << order;
+    ti_setup(&entries[0], 0, None, policy);
+    let which: u8 = kani::any();
+    let mut taken: usize = 0;
+    match which % 3 {
+        0 => {
+            if trees.steal(TreeId(0), class, frames, policy).is_some() {
+                taken = frames;
+            }
+        }
+        1 => {
+            if let Some((reserved, free, _c)) = trees.reserve_or_steal(TreeId(0), class, frames, policy) {
+                taken = if reserved { free } else { frames };
+                if reserved {
+                    vassert!("C04", free >= frames, "a reservation hands over at least the requested frames");
+                }
+            }
+        }
+        _ => {
+            let min: usize = kani::any();
+            kani::assume(min >= 1 && min <= TREE_FRAMES);
+            if let Some(free) = trees.sync(TreeId(0), min) {
+                taken = free;
+                vassert!("C04", free >= min, "a sync hands over at least the missing frames");
+            }
+        }
+    }
+    set_mode(Mode::Off);
+    vcover!("C04", taken > 0 && unsafe { TI_ENV_STEPS } > 0, "frames taken although other threads interfered");
+    vassert!("C04", unsafe { TI_DELTA_FREE } == -(taken as isize), "taking frames from a tree lowers its counter by exactly what the call receives, whatever other threads do");
+    vassert!("C03", !unsafe { TI_BAD }, "taking frames never unreserves a tree");
+}
